@@ -45,30 +45,6 @@ RULE = ("generated shell definitions (0-6 fields of kinds bool/str/int/float/pat
         "5%, unset optionals at 30%, appended arguments as list or string; non-trivial = at least two fields "
         "contribute arguments; distinct = distinct (definition, values) JSON")
 
-CASE_T = "(inputs_t * option (list (option Z)) * result (list la))%type"
-DEFS = sg.COMMON_DEFS + """
-Definition case_t := %s.
-Definition dom (c : case_t) : bool :=
-  let '((fm, e, fs, vals, app, _), _, _) := c in
-  c22_in_domain fm e fs vals && match app with AppList _ => true | AppStr _ => false end.
-Definition tie_ok (c : case_t) : bool :=
-  let '(i, pos, obs) := c in
-  negb (dom c) || (rendered_ok i && positions_ok i pos && res_eqb (in_argv i) obs).
-Definition tie_all (c : case_t) : bool :=
-  let '(i, pos, obs) := c in rendered_ok i && positions_ok i pos && res_eqb (in_argv i) obs.
-Definition spec_ok (c : case_t) : bool :=
-  let '((fm, e, fs, vals, app, _), _, obs) := c in
-  match append_args_conv app with
-  | Good a => c22_ok fm e fs vals a obs
-  | Bad _ => match obs with Bad ENoClosingQuote | Bad ENoEscaped => true | _ => false end
-  end.
-(* bit 0: model != implementation; bit 1: implementation != spec; bit 2: outside the domain of C22_partial *)
-Definition code (c : case_t) : nat :=
-  (if tie_all c then 0 else 1) + (if spec_ok c then 0 else 2) + (if dom c then 0 else 4).
-
-""" % CASE_T
-
-
 def contributes(case):
     n = 0
     for f in case["fields"]:
@@ -131,14 +107,12 @@ def run(ctx):
     t0 = time.time()
     n = ctx.budget(300, 4000)
     cases = gen_cases(ctx, n)
-    terms, metas = [], []
     dist = {"form_class": 0, "define_rejected": 0, "errors": 0, "fields_total": 0, "with_negative_pos": 0,
             "with_explicit_pos": 0, "list_fields": 0, "templated_fields": 0, "dots_fields": 0, "append_str": 0}
+    metas, codes = sg.evaluate_argv(ctx, "c22", cases)
+    t1 = time.time()
     seen, nontrivial = set(), 0
-    for c in cases:
-        obs = sg.observe(c)
-        terms.append(coqio.pair(sg.enc_inputs(c), sg.enc_positions(c, obs), sg.enc_result_argv(obs)))
-        metas.append(obs)
+    for c, obs in zip(cases, metas):
         dist["form_class"] += c["form"] == "class"
         dist["define_rejected"] += obs["stage"] == "define"
         dist["errors"] += obs["error"] is not None
@@ -153,72 +127,38 @@ def run(ctx):
         if key not in seen:
             seen.add(key)
             nontrivial += contributes(c) >= 2
-    t1 = time.time()
-    codes = coqio.run_case_codes(ctx.scratch, "c22", sg.IMPORTS, "case_t", terms, "code", extra=DEFS, shard=120)
-    res = {"tie_all": [i for i, k in enumerate(codes) if k & 1], "spec": [i for i, k in enumerate(codes) if k & 2],
-           "dom": [i for i, k in enumerate(codes) if k & 4]}
-    res["tie"] = [i for i in res["tie_all"] if not codes[i] & 4]
-    t2 = time.time()
-    in_domain = len(cases) - len(res["dom"])          # "dom" lists the indices *outside* the domain
-    dist["in_partial_theorem_domain"] = in_domain
-    dist["spec_disagreements"] = len(res["spec"])
+    dist["in_partial_theorem_domain"] = sum(1 for k in codes if not k & 4)
+    dist["spec_disagreements"] = sum(1 for k in codes if k & 2)
     out = Outcome(evaluations=len(cases), distinct_nontrivial=nontrivial, rule=RULE, distribution=dist,
                   traces_validated=len(cases),
-                  samples=[{"case": {k: c[k] for k in ("form", "exe", "fields", "values", "append")},
-                            "observed": {k: metas[i][k] for k in ("positions", "argv", "error")}}
+                  samples=[{"case": sg.strip_case(c), "observed": {k: metas[i][k] for k in ("positions", "argv", "error")}}
                            for i, c in enumerate(cases[:3])],
-                  extra={"model_disagreements_outside_domain": len(set(res["tie_all"]) - set(res["tie"])),
-                         "model_agreements": len(cases) - len(res["tie_all"])})
-    outside = set(res["dom"])
+                  extra={"model_agreements": sum(1 for k in codes if not k & 1),
+                         "model_agreements_outside_domain": sum(1 for k in codes if k & 4 and not k & 1),
+                         "cases_outside_domain": sum(1 for k in codes if k & 4)})
     by_class, pending = {}, []
-    for i in res["spec"]:
+    for i, k in enumerate(codes):
         c, obs = cases[i], metas[i]
-        fid = classify(c, obs) if i in outside else None
-        by_class[fid] = by_class.get(fid, 0) + 1
-        if sum(1 for f, _ in pending if f.finding == fid and f.kind == "spec") >= 3:
-            continue
-        pending.append((Failure(case=_strip(c), observed={k: obs[k] for k in ("positions", "argv", "error", "stage")},
-                                kind="spec", finding=fid,
-                                note=WHAT.get(fid, "argv differs from the reference vector"
-                                              + ("" if i in outside else " inside the domain of C22_partial"))),
-                        _spec_term(c)))
+        observed = {x: obs[x] for x in ("positions", "argv", "error", "stage")}
+        if k & 2:
+            fid = classify(c, obs) if k & 4 else None
+            by_class[fid] = by_class.get(fid, 0) + 1
+            if sum(1 for f, _ in pending if f.finding == fid and f.kind == "spec") < 3:
+                pending.append((Failure(case=sg.strip_case(c), observed=observed, kind="spec", finding=fid,
+                                        note=WHAT.get(fid, "argv differs from the reference vector"
+                                                      + (" inside the domain of C22_partial" if not k & 4 else ""))),
+                                sg.spec_term(c)))
+        # the model no longer describes the code: inside the theorem's domain, or outside it when the code changed to
+        # something that is not the spec either
+        if k & 1 and (not k & 4 or k & 2) and sum(1 for f, _ in pending if f.kind == "tie") < 6:
+            pending.append((Failure(case=sg.strip_case(c), observed=observed, kind="tie",
+                                    note="model != implementation" + (" inside the domain of C22_partial" if not k & 4
+                                                                        else " (and implementation != spec)")),
+                            sg.model_term(c)))
     dist["spec_disagreements_by_class"] = {str(k): v for k, v in by_class.items()}
-    for i in res["tie"][:6]:
-        c, obs = cases[i], metas[i]
-        pending.append((Failure(case=_strip(c), observed={k: obs[k] for k in ("positions", "argv", "error", "stage")},
-                                kind="tie", note="model != implementation inside the domain of C22_partial"),
-                        _model_term(c)))
-    if pending:
-        try:
-            vals = coqio.eval_terms(ctx.scratch, "expected", sg.IMPORTS, [t for _, t in pending], extra=sg.COMMON_DEFS + SHOW)
-        except Exception as e:  # noqa
-            vals = ["coq evaluation failed: %s" % e] * len(pending)
-        for (f, _), v in zip(pending, vals):
-            f.expected = v
-            out.failures.append(f)
-    out.extra["phase_wall_s"] = {"implementation": round(t1 - t0, 1), "coq_cases": round(t2 - t1, 1),
-                                 "replay_values": round(time.time() - t2, 1)}
+    out.failures = sg.fill_expected(ctx, pending)
+    out.extra["phase_wall_s"] = {"implementation_and_coq": round(t1 - t0, 1), "replay_values": round(time.time() - t1, 1)}
     return out
-
-
-def _strip(c):
-    return {k: c[k] for k in ("form", "exe", "fields", "values", "append")}
-
-
-SHOW = """
-Definition show (r : result (list la)) := match r with Good l => inl (map str_of l) | Bad e => inr e end.
-"""
-
-
-def _spec_term(c):
-    app = sg.enc_las(c["append"]) if isinstance(c["append"], list) else "(match append_args_conv %s with Good a => a | _ => [] end)" % sg.enc_app(c["append"])
-    return "map str_of (spec_argv %s %s %s %s)" % (
-        sg.enc_exe(c["exe"]), coqio.lst([sg.enc_sfield(f) for f in c["fields"]]), sg.enc_vals(c), app)
-
-
-def _model_term(c):
-    return "(match define %s (map to_field %s) with Good fs => inl (map f_pos fs) | Bad e => inr e end, show (in_argv %s))" % (
-        sg.enc_form(c), coqio.lst([sg.enc_sfield(f) for f in c["fields"]]), sg.enc_inputs(c))
 
 
 def replay(ctx, payload):
@@ -227,7 +167,7 @@ def replay(ctx, payload):
     print("definition:", json.dumps(c["fields"]))
     print("values    :", json.dumps(c["values"]), "append:", c["append"], "exe:", c["exe"], "form:", c["form"])
     print("implementation: positions=%s argv=%s error=%s" % (obs["positions"], obs["argv"], obs["error"]))
-    vals = coqio.eval_terms(ctx.scratch, "replay", sg.IMPORTS, [_model_term(c), _spec_term(c)], extra=sg.COMMON_DEFS + SHOW)
+    vals = coqio.eval_terms(ctx.scratch, "replay", sg.IMPORTS, [sg.model_term(c), sg.spec_term(c)], extra=sg.ARGV_DEFS)
     print("model         :", vals[0])
     print("spec          :", vals[1])
     return 0
